@@ -21,7 +21,9 @@ class SPEC:
             "text that is no JSON (a legal string) - which must not disturb the arithmetic; the stored value (Agg.fillHttp) is compared in the dumps. The declarative "
             "history-level specification Ipfix.C05.expected (sums / latest values / max / throughput formula as folds over the flow's history) "
             "is evaluated on every dumped and exported record of the implementation. A second stream violates the contract on purpose (equal "
-            "end times, decreasing totals); it is compared with the model but reported as out-of-domain only. Crash-only sessions (implementation alone; the model has no such "
+            "end times, decreasing totals); it is compared with the model but reported as out-of-domain only. Records sent with an odd element-order seed (`p<n>`) "
+            "carry their IPv4 key addresses in the 16-byte form (what net.ParseIP returns), the others in the 4-byte form: one flow. "
+            "Crash-only sessions (implementation alone; the model has no such "
             "records): a flow's first, second or third record comes from a template that lacks one or two of the elements the engine "
             "puts into a record (`omit=<names>`: flow type, times, end reason, tcpState, pod names, key fields, any counter), followed by "
             "dumps and expiry scans with and without reset - the aggregation may refuse such a record but must answer every "
